@@ -1224,11 +1224,12 @@ def len_alphabet(ctx, req_res, slip_res, add=True):
 def run_lengths(ctx, req_res, slip_res, q):
     fl, alpha = len_alphabet(ctx, req_res, slip_res)
     rng = random.Random(ctx.seed * 8191 + 41)
-    neval, inexact, fx = fl.run(ctx, alpha, rng, q)
+    neval, inexact, fx, refused = fl.run(ctx, alpha, rng, q)
     ctx.note('lengths: %d requests exported by MC_GridLength (clips of every length 1..%d of a %d-point native grid); %d evaluations on '
              'long-lived emission / direct-image / transmission models against %d full native computations of fresh models; '
-             '%d returned a grid other than the documented clip (not prescribed by the statement)'
-             % (len(alpha.reqs), len(alpha.nat_i) - 1, len(alpha.nat_i), neval, fx.nrefs, inexact))
+             '%d returned a grid other than the documented clip, %d requests without a native point inside the observation were refused '
+             '(margin not prescribed by the statement)'
+             % (len(alpha.reqs), len(alpha.nat_i) - 1, len(alpha.nat_i), neval, fx.nrefs, inexact, refused))
     ctx.add_sample(dict(length_request=alpha.reqs[len(alpha.reqs) // 2]))
 
 
